@@ -55,7 +55,8 @@ def F(name, filename, ctype, content, clen=None):
 
 
 def case(boundary, fields, mem=102400, k=0, framing='cl', first='POST', chunks=None, blk=3, with_body=False,
-         ops=None, sched=None, app='own', cfg_via='ctor', copy=False, second=None, api=False, cl_with_te=None):
+         ops=None, sched=None, app='own', cfg_via='ctor', copy=False, second=None, api=False, cl_with_te=None,
+         cstyle=0):
     """blk: block size of the interleaved pass (every upload is read blk bytes at a time, round robin);
     with_body: Request.body is also read from between the rounds;
     ops: script of file operations run on every upload: ['r', n] read(n) (n < 0: read()), ['s', pos, whence], ['t'];
@@ -65,10 +66,12 @@ def case(boundary, fields, mem=102400, k=0, framing='cl', first='POST', chunks=N
     object by replacing wsgi.input (cache invalidation); api: exercise the rest of the FileUpload / BytesIOProxy API;
     cl_with_te: under chunked framing, a Content-Length header sent NEXT to Transfer-Encoding: chunked — 'wire' (length of
     the chunk-framed stream), 'body' (length of the payload), 'short', 'long', 'zero'; chunked framing wins
-    (C05_chunked_overrides_content_length), so the form must round-trip all the same"""
+    (C05_chunked_overrides_content_length), so the form must round-trip all the same;
+    cstyle: spelling of the chunk-size lines under chunked framing (size_line: upper / mixed case hex, leading zeros,
+    chunk extensions, trailer fields)"""
     return dict(boundary=cps(boundary), fields=fields, mem=mem, k=k, framing=framing, first=first,
                 chunks=chunks or [7], blk=blk, with_body=with_body, ops=ops or [], sched=sched or [], app=app,
-                cfg_via=cfg_via, copy=copy, second=second, api=api, cl_with_te=cl_with_te)
+                cfg_via=cfg_via, copy=copy, second=second, api=api, cl_with_te=cl_with_te, cstyle=cstyle)
 
 
 # ---------------------------------------------------------------- dev-only line coverage of the anchored code
@@ -235,15 +238,41 @@ def budget(fields):
     return sum(len(header_block(f)) + (len(part_data(f)) if f['kind'] == 'text' else 0) for f in fields)
 
 
-def chunked(body, sizes):
+# spellings of a chunk-size line (RFC 9112 7.1: 1*HEXDIG in either case, any number of leading zeros, chunk
+# extensions) and of what follows the last chunk (trailer fields).  Every size line stays below 16 bytes.
+CHUNK_STYLES = 8
+
+
+def size_line(n, style, j):
+    h = b'%x' % n
+    if style == 1:
+        h = h.upper()                                  # what http.client writes
+    elif style == 2:
+        h = bytes(c - 32 if 97 <= c <= 102 and (i + j) % 2 == 0 else c for i, c in enumerate(h))    # mixed case
+    elif style == 3:
+        h = b'000' + h
+    elif style == 4:
+        h = h + b';ext=1'
+    elif style == 5:
+        h = b'0' + h.upper() + b';a="b"'
+    elif style == 6:
+        h = h.upper() + b';x'
+    elif style == 7:
+        h = (h.upper() if j % 2 else b'00' + h)
+    return h + b'\r\n'
+
+
+def chunked(body, sizes, style=0):
     out, i, j = [], 0, 0
     while i < len(body):
         n = max(1, sizes[j % len(sizes)])
         j += 1
         piece = body[i:i + n]
-        out.append(b'%x\r\n' % len(piece) + piece + b'\r\n')
+        out.append(size_line(len(piece), style, j) + piece + b'\r\n')
         i += len(piece)
-    out.append(b'0\r\n\r\n')
+    last = {0: b'0\r\n', 3: b'000\r\n', 4: b'0;ext=1\r\n', 5: b'00;a="b"\r\n'}.get(style, b'0\r\n')
+    trailer = b'X-Trailer: v\r\n' if style in (5, 6) else b''
+    out.append(last + trailer + b'\r\n')
     return b''.join(out)
 
 
@@ -254,7 +283,7 @@ def valid(case):
     """the guard of the property: legal boundary, names free of double quotes and line
     breaks, plain content types, no delimiter inside a value or a file content"""
     b = case['boundary']
-    if case['mem'] < 1 or (case['framing'] == 'chunked' and case['mem'] < 5):
+    if case['mem'] < 1 or (case['framing'] == 'chunked' and case['mem'] < (16 if case.get('cstyle') else 5)):
         return False         # _iter_chunked needs a buffer at least as long as a chunk-size line (C05)
     if not b or any(chr(c) not in BCHARS + ' ' for c in b) or b[-1] == 32 or len(b) > 70:
         return False         # RFC 2046: 1..70 bchars, not ending in a space
@@ -360,10 +389,27 @@ def corpus():
         case('a' + ' ' * 68 + 'b', [T('a', 'v')]),
         case('B' * 71, [T('a', 'v')]),           # longer than RFC 2046 allows: outside the property, model = code: accepted
         case('B' * 200, [T('a', 'v')]),
+        # ---- chunk-size spellings: upper / mixed case hex (sizes with letters: 10..15, 26, 171 ...), leading zeros,
+        # extensions, trailer fields
+        case('XyZ', [T('a', 'v'), F('f', 'x', 'a/b', bytes(range(256)) * 2)], framing='chunked', chunks=[10, 11, 12, 13, 14, 15, 26, 171, 250],
+             mem=64, cstyle=1),
+        case('XyZ', [T('a', 'v'), F('f', 'x', 'a/b', bytes(range(256)) * 2)], framing='chunked', chunks=[171, 250, 43, 12], mem=300,
+             cstyle=2, first='files'),
+        case('XyZ', [T('a', 'v')], framing='chunked', chunks=[10, 27], mem=64, cstyle=3),
+        case('XyZ', [T('a', 'v'), T('a', 'w')], framing='chunked', chunks=[11, 44], mem=64, cstyle=4),
+        case('XyZ', [F('f', 'x', 'a/b', b'D' * 700)], framing='chunked', chunks=[175, 250], mem=64, cstyle=5, cl_with_te='body'),
+        case('XyZ', [T('a', 'v')], framing='chunked', chunks=[12], mem=16, cstyle=6, sched=[0, 1, 0] * 60),
+        case('XyZ', [T('a', 'v'), F('f', 'x', 'a/b', b'')], framing='chunked', chunks=[255, 10], mem=200, cstyle=7),
         # ---- short reads / early fragments on wsgi.input under both framings
         case('XyZ', [T('a', 'v' * 20), F('f', 'x', 'a/b', bytes(range(90)))], mem=50, sched=[0, 0, 3, 1, 0, 7, 0, 0, 2] * 9),
         case('XyZ', [T('a', 'v' * 20), F('f', 'x', 'a/b', bytes(range(90)))], mem=50, framing='chunked', chunks=[11, 2, 40],
              sched=[0, 1, 0, 0, 2, 0, 5] * 40),
+        # ---- forms with very many tiny parts (a "count" threshold a hardening might add: sections = 1 + 2 per part);
+        # kept at the end: the first 40 corpus cases are also evaluated inside Coq
+        case('XyZ', [T('k%d' % i, str(i)) for i in range(499)], first='forms'),
+        case('XyZ', [T('k%d' % (i % 50), 'v') for i in range(500)]),
+        case('XyZ', [F('f%d' % i, 'n', 'a/b', b'') if i % 8 == 0 else T('t', '') for i in range(640)], first='files', blk=64),
+        case('XyZ', [T('a', '') for i in range(999)], framing='chunked', chunks=[4000], mem=65536, cstyle=1),
     ]
 
 
@@ -428,8 +474,9 @@ def gen(rng, n):
                           max(1, body_len - 2), max(1, body_len // 2), bud + rng.randrange(0, 30), rng.randrange(1, 64)])
         mem = max(1, mem)
         framing = rng.choice(['cl', 'cl', 'chunked'])
+        cstyle = rng.randrange(CHUNK_STYLES)
         if framing == 'chunked':
-            mem = max(mem, 5)
+            mem = max(mem, 16 if cstyle else 5)
         ops = []
         if rng.random() < 0.4:
             for _ in range(rng.randrange(1, 8)):
@@ -455,7 +502,7 @@ def gen(rng, n):
                  sched=[] if rng.random() < 0.6 else [rng.choice([0, 0, 1, 2, 3, 7, 20]) for _ in range(rng.randrange(1, 40))],
                  app=rng.choice(['own', 'own', 'shared']), cfg_via=cfg_via, copy=rng.random() < 0.25, second=second,
                  api=rng.random() < 0.25,
-                 cl_with_te=rng.choice([None, None, 'wire', 'body', 'short', 'long', 'zero']),
+                 cl_with_te=rng.choice([None, None, 'wire', 'body', 'short', 'long', 'zero']), cstyle=cstyle,
                    framing=framing, first=rng.choice(['POST', 'forms', 'files']),
                    chunks=[rng.randrange(1, 40) for _ in range(rng.randrange(1, 4))])
         assert valid(c), c
@@ -601,7 +648,7 @@ def _handler():
     if case.get('second') is not None:
         body2 = encode_form(bytes(case['boundary']), case['second'])
         if case['framing'] == 'chunked':
-            rq['wsgi.input'] = io.BytesIO(chunked(body2, case['chunks']))
+            rq['wsgi.input'] = io.BytesIO(chunked(body2, case['chunks'], case.get('cstyle', 0)))
         else:
             rq['wsgi.input'] = io.BytesIO(body2)
             rq['CONTENT_LENGTH'] = str(len(body2))
@@ -637,7 +684,7 @@ def _run_impl(case):
     ctype = 'multipart/form-data; boundary=' + ''.join(chr(c) for c in case['boundary'])
     sched = case.get('sched') or []
     if case['framing'] == 'chunked':
-        wire = chunked(body, case['chunks'])
+        wire = chunked(body, case['chunks'], case.get('cstyle', 0))
         env = environ('POST', '/', **{'wsgi.input': FragStream(wire, sched), 'CONTENT_TYPE': ctype,
                                       'HTTP_TRANSFER_ENCODING': 'chunked'})
         both = case.get('cl_with_te')
@@ -859,6 +906,8 @@ API_SURFACE = [
     ('config max_body_size', 'excluded: rejects the request (C13); exercised in C12'),
     ('one Ombott serving many requests', 'covered by app="shared" (a third of the generated cases, in sequence)'),
     ('wsgi.input short reads, Content-Length and chunked framing', 'covered by sched with framing cl|chunked'),
+    ('chunk-size spellings (upper/mixed case hex, leading zeros, extensions, trailers)', 'covered by cstyle 0..7 under chunked framing'),
+    ('forms with very many parts (499 / 500 / 640 / 999)', 'covered by four corpus cases'),
     ('both framing headers (Transfer-Encoding: chunked + Content-Length)', 'covered by cl_with_te wire|body|short|long|zero'),
     ('boundary: length 1..70 (RFC 2046 maximum), whole bchars alphabet, inner spaces; 71+ (illegal, accepted by the code)', 'covered by the boundary generator and corpus; 71+ compared with the model only'),
     ('FieldStorage.read / parse_header / iter_items, success paths', 'covered by every case'),
